@@ -80,11 +80,22 @@ def dump_rows(c, module, cfg, fname):
     return rows
 
 
-def trace(c, module, cfg, ev, name):
-    """per-line validation -> {0-based line: [failed clauses]}; MODEL / STUCK / unread lines are no verdict"""
+def trace(c, module, cfg, ev, name, own_file=False):
+    """per-line validation -> {0-based line: [failed clauses]}; MODEL / STUCK / unread lines are no verdict.
+    own_file: the run reads its own copy of the lines (several slices are validated at the same time)"""
     path = os.path.join(c.scratch, "ext10_%s.ndjson" % name)
     write_ndjson(path, ev)
-    r = c.tlc_trace(module, cfg, path, timeout=3000, heap="6g")
+    tracefile = "trace.ndjson"
+    if own_file:
+        tracefile = "trace_%s.ndjson" % name
+        text = open(os.path.join(c.specdir, cfg)).read()
+        if 'TraceFile = "trace.ndjson"' not in text:
+            raise Undecided("%s has no TraceFile constant" % cfg)
+        cfg = cfg.replace(".cfg", "_%s.cfg" % name)
+        open(os.path.join(c.specdir, cfg), "w").write(text.replace('TraceFile = "trace.ndjson"', 'TraceFile = "%s"' % tracefile))
+    r = c.tlc_trace(module, cfg, path, timeout=3000, heap="6g", tracefile=tracefile)
+    if r.ok and r.distinct != len(ev) + 1:
+        raise Undecided("trace spec %s read %d lines of %s, %d were recorded" % (module, r.distinct - 1, name, len(ev)))
     if r.tuples("MODEL"):
         raise Undecided("trace spec %s: the model does not cover a recorded line of %s: %s" % (module, name, r.tuples("MODEL")[:3]))
     if r.tuples("STUCK") or (not r.ok and not r.tuples("NONCONF")):
@@ -239,8 +250,8 @@ HUMANID_SANITY += [
     ("impl", "ImplMatchesContract", "no trimming: the rule differs from the contract"),
 ]
 
-CLASSES = {"lower": {"a", "b", "z"}, "upper": {"B", "Z"}, "digit": {"7", "0"}, "hyphen": {"-"},
-           "other ASCII": {"_", ".", "!", "~", "/"}, "blank or control": {"sp", "nl", "del"}, "multi-byte": {"e2", "e3", "e4"}}
+CLASSES = {"lower": {"a", "b", "z"}, "upper": {"A", "B", "Z"}, "digit": {"7", "0", "9"}, "hyphen": {"-"},
+           "other ASCII": {"_", ".", "!", "~", "/", "@", "[", "`", "{", ":"}, "blank or control": {"sp", "nl", "del"}, "multi-byte": {"e2", "e3", "e4"}}
 NBYTES = {"e2": 2, "e3": 3, "e4": 4}
 
 
@@ -271,10 +282,10 @@ def run_humanid(c, th, viol):
             i += 1
         cuts.append(i)
     cuts.append(len(ev))
-    futs = [POOL.submit(trace, c, "TraceHumanID", "TraceHumanID.cfg", ev[cuts[j]:cuts[j + 1]], "humanid%d" % j)
+    futs = [(j, POOL.submit(trace, c, "TraceHumanID", "TraceHumanID.cfg", ev[cuts[j]:cuts[j + 1]], "humanid%d" % j, True))
             for j in range(k) if cuts[j] < cuts[j + 1]]
     bad = {}
-    for j, fu in enumerate(futs):
+    for j, fu in futs:
         for i, rs in fu.result().items():
             bad[cuts[j] + i] = rs
 
